@@ -4,6 +4,8 @@ CONSTANTS
   MaxSteps = 9
   GenSteps = 4
   FIX_CLOSE = TRUE
+  ENTRIES_ARE_DIRS = FALSE
+  RECHECK_DIRS = TRUE
   FIX_BYUSER = TRUE
   USER_NESTS = FALSE
   USER_REMOVES_ENTRIES = FALSE
